@@ -1,5 +1,6 @@
 import EgglogVerif.Lemmas.EGraphInv
 import EgglogVerif.Lemmas.EGraphFix
+import EgglogVerif.Lemmas.EGraphTerm
 /-
 C01 — Equality is exactly the congruence closure of what was asserted.
 
@@ -154,6 +155,15 @@ theorem C01_exact {ds : Nat → Decl} {g : EG} {U R} (i : Inv ds g U R) (fuel : 
   constructor
   · exact C01_sound i' a b
   · intro h; exact (find_eq_iff i'.wf a b).mpr (C01_complete i' c _ _ h)
+
+/-- **Unconditional exactness**: when every stored output id is an id of the union-find, the
+rebuild loop run with `size + 2` passes of fuel always reaches its fixpoint (`rebuild_total`), so
+the equalities it leaves are exactly the congruence closure of the history — no hypothesis about
+the loop is left. -/
+theorem C01_exact_total {ds : Nat → Decl} {g : EG} {U R} (i : Inv ds g U R) (hr : OutsInRange g g.parents.size)
+    (a b : Int) :
+    (rebuild (g.parents.size + 2) g).1.find a = (rebuild (g.parents.size + 2) g).1.find b ↔ CC ds U R a.toNat b.toNat :=
+  C01_exact i _ (rebuild_total i.wf hr) a b
 
 /-! ### rule heads and top-level actions -/
 
